@@ -31,6 +31,34 @@ pub fn op_lefrt(args: &[Sexp]) -> String {
         Err(_) => "err".into(),
     }
 }
+/// `c20.dup <k> <nshapes>`: an abstract whose port and blockage maps hold shapes on k distinct layers that all
+/// share ONE layer number (as `met1`/`via` do in the crate's own test layers), exported to LEF, protobuf and GDSII
+pub fn op_dup(args: &[Sexp]) -> String {
+    let (k, ns) = match (args.get(0).and_then(|a| a.int()), args.get(1).and_then(|a| a.int())) { (Some(k), Some(n)) => (k, n), _ => return "bad-op".into() };
+    let mut lib = raw::Library::new("dup", raw::Units::Nano);
+    let mut keys = vec![];
+    {
+        let mut layers = lib.layers.write().unwrap();
+        for i in 0..k {
+            let l = raw::Layer::new(68, format!("lay{}", i)).add_pairs(&[(20, raw::LayerPurpose::Drawing), (5, raw::LayerPurpose::Label), (16, raw::LayerPurpose::Pin), (255, raw::LayerPurpose::Obstruction)]).unwrap();
+            keys.push(layers.add(l));
+        }
+    }
+    let outline = raw::Polygon { points: vec![raw::Point::new(0, 0), raw::Point::new(9, 0), raw::Point::new(9, 9), raw::Point::new(0, 9)] };
+    let mut abs = raw::Abstract::new("c", outline);
+    let mut port = raw::AbstractPort::new("p");
+    for (i, key) in keys.iter().enumerate() {
+        let shapes: Vec<raw::Shape> = (0..ns).map(|j| raw::Shape::Rect(raw::Rect { p0: raw::Point::new(i as isize, j as isize), p1: raw::Point::new(i as isize + 2, j as isize + 3) })).collect();
+        port.shapes.insert(*key, shapes.clone());
+        abs.blockages.insert(*key, shapes);
+    }
+    abs.ports.push(port);
+    lib.cells.push(layout21raw::utils::Ptr::new(raw::Cell::from(abs)));
+    let lef = raw::lef::LefExporter::export(&lib).map(|l| serde_json::to_string(&l).unwrap_or_default()).unwrap_or("err".into());
+    let pb = lib.to_proto().map(|p| crate::props::c14::plib_s(&p).to_string()).unwrap_or("err".into());
+    let gds = lib.to_gds().map(|mut g| { zero_dates(&mut g); crate::gdsio::lib_s(&g).to_string() }).unwrap_or("err".into());
+    format!("ok {} {} {}", of_bytes(lef.as_bytes()), of_bytes(pb.as_bytes()), of_bytes(gds.as_bytes()))
+}
 pub fn oracle(line: &str) -> String {
     let first = crate::ops::run_line(line);
     for k in 0..5 {
@@ -57,6 +85,7 @@ pub fn gen(thorough: bool, rng: &mut Rng, out: &mut Vec<String>) {
         out.push(c.replacen("lefraw.import", "c20.lefrt", 1));
         out.push(c);
     }
+    for k in 2..=6 { for ns in 1..=2 { out.push(format!("c20.dup {} {}", k, ns)); } }
     // raw libraries with multi-layer abstracts, exported three ways
     for _ in 0..n {
         let r = crate::props::c14::gen_rlib(rng, false);
